@@ -20,6 +20,16 @@ func (c *Core) SendBundle(bndl *bpv7.Bundle) {
 	// and before the bundle is signed.
 	c.idKeeper.update(bndl)
 
+	// The IdKeeper's state does not outlive a restart, but the bundles waiting in the store do. Skip sequence numbers
+	// which are still in use; otherwise the store takes the new bundle for a duplicate and drops it. This happens
+	// for each node without a clock, whose bundles share the zero creation time.
+	for {
+		if _, err := c.store.QueryId(bndl.ID()); err != nil {
+			break
+		}
+		c.idKeeper.update(bndl)
+	}
+
 	if c.signPriv != nil && bndl.IsAdministrativeRecord() {
 		c.sendBundleAttachSignature(bndl)
 	}
